@@ -103,6 +103,22 @@ def sweep(sc, holds, step=1, stop_after=None):
             k += step
 
 
+def reader_sweep(sc, step=1):
+    """the other direction: the receiving thread suspended at every line of the transport layer's frame handlers (of either stack)
+    while that stack's job thread runs a pass"""
+    for s in (0, 1):
+        k = 1
+        while True:
+            h = dict(s=s, k=k, d=0, reader=True)
+            res = scen.run(dict(sc), hold=h, keep_sim=True)
+            held = res.stacks[s].held_at
+            res.sim.close()
+            yield h, held, res
+            if held is None:
+                break
+            k += step
+
+
 def runner(sc):
     return scen.run(sc, hold=sc.get('hold'))
 
@@ -172,6 +188,21 @@ def explore(out, tier, second=0):
                 key = x['kind']
                 if key not in worst:
                     worst[key] = (dict(x, held_at=held, hold=h), dict(sc, hold=h))
+    for sc in shapes(tier):
+        if sc['kind'] != 'p2p' or sc.get('from_timer'):
+            continue
+        base = scen.run(dict(sc))
+        if oracle(sc, base):
+            continue
+        for h, held, res in reader_sweep(sc, step=(1 if tier != 'quick' or sc['win'] == 2 else 2)):
+            if held is None:
+                continue
+            n += 1
+            out.add_case((sc['dll'], sc['kind'], sc['win'], 'reader', h['s'], h['k']), True)
+            for x in oracle(sc, res) + same_as_undisturbed(base, res):
+                key = x['kind'] + '-with-the-receiving-thread-suspended'
+                if key not in worst:
+                    worst[key] = (dict(x, kind=key, held_at=held, hold=h), dict(sc, hold=h))
     return worst, n
 
 
